@@ -305,7 +305,7 @@ def run_shard(ctx: Ctx) -> None:
         if msg:
             raise Violation(msg, {"schema_text": text, "schema_pickle": pickle_b64(s), "info": info})
 
-    hyp_run(ctx, case(), body, ctx.n(1600, 30000))
+    hyp_run(ctx, case(), body, ctx.n(4800, 30000))
 
 
 def replay(c: Dict[str, Any]) -> Optional[str]:
